@@ -17,6 +17,10 @@ import types
 
 import z3
 
+# the legacy simplex arithmetic core decides the div/mod-heavy VCs generated here 10-50x faster
+# than the default (measured on the AVP padding obligations: 0.14 s vs 6.7 s)
+z3.set_param("smt.arith.solver", int(__import__("os").environ.get("PYVC_ARITH_SOLVER", "2")))
+
 from .values import (SInt, SBool, SBytes, SStr, SSeq, SObj, SExc, SMethod, SClosure, Sym,
                      Opaque, BV8, BSEQ, STR, REF, RSEQ, bytes_term, bytes_elems, str_term,
                      int_term, bool_term, is_sym, is_intlike, is_byteslike, is_strlike,
@@ -206,6 +210,7 @@ class Ctx(InterpMixin, ModelsMixin):
         self.witness_ns = {}
         self.witness_state = {}
         self.entry_ns = {}
+        self.be_cache = {}        # (Int term id, width) -> (term, byte terms): canonical big-endian bytes
         self.applied = {}         # callee function -> (contract, namespace) of its last application
 
     # ------------------------------------------------------------ fresh symbols
@@ -222,7 +227,10 @@ class Ctx(InterpMixin, ModelsMixin):
     def fresh_bytes(self, base="by", n=None):
         if n is not None:
             nm = self.fresh_name(base)
-            return SBytes(elems=[z3.BitVec("%s.%d" % (nm, i), 8) for i in range(n)])
+            elems = [z3.Int("%s.%d" % (nm, i)) for i in range(n)]
+            for e in elems:
+                self.assume_raw(z3.And(e >= 0, e <= 255))
+            return SBytes(elems=elems)
         return SBytes(term=z3.Const(self.fresh_name(base), BSEQ))
 
     def fresh_str(self, base="s"):
@@ -375,7 +383,7 @@ class Ctx(InterpMixin, ModelsMixin):
     def fix_bytes(self, v):
         """Turn a bytes value whose length is pinned by the pc into element form."""
         if isinstance(v, (bytes, bytearray)):
-            return SBytes(elems=[z3.BitVecVal(b, 8) for b in v])
+            return SBytes(elems=[z3.IntVal(b) for b in v])
         if v.elems is not None:
             return v
         k = self.known_len(v)
@@ -383,7 +391,11 @@ class Ctx(InterpMixin, ModelsMixin):
             return None
         if k > 64:
             return None
-        return SBytes(term=v.term, elems=[z3.simplify(v.term[i]) for i in range(k)])
+        elems = [z3.simplify(v.term[i]) for i in range(k)]
+        for e in elems:
+            if not z3.is_int_value(e):
+                self.assume_raw(z3.And(e >= 0, e <= 255))
+        return SBytes(term=v.term, elems=elems)
 
     # ------------------------------------------------------------ obligations
     def prove(self, name, goal, info=None, assume_after=True):
